@@ -35,3 +35,30 @@ Proof.
 Qed.
 Print Assumptions mom_rendered_text_rests.
 Print Assumptions mom_rendered_args_rests.
+
+(* C03 / C04 on the text renderer: outside automatic typography, what render_text returns is the escape of exactly the
+   text of the inlines, so unescaping it gives back what was written *)
+Lemma render_text_plain l s : str_eqb (lang s) (R "fr") = false -> str_eqb (lang s) (R "en") = false ->
+  fst (render_text l s) = escape_fn s (fst (inlines_text l s)).
+Proof.
+  intros H1 H2. unfold render_text. rewrite H1, H2.
+  pose proof (inlines_text_eqd l s) as E. destruct (inlines_text l s) as [t s2]. cbn [fst snd] in *.
+  apply (f_equal (fun f => f t)). apply escape_fn_eqd. exact E.
+Qed.
+Lemma escape_fn_xhtml s : Exp.fmt s = Exp.FX -> escape_fn s = MBase.html_escape.
+Proof. unfold Exp.fmt, escape_fn. destruct (str_eqb (format s) _); [discriminate|]. destruct (str_eqb (format s) _); [discriminate|].
+  destruct (str_eqb (format s) _); [discriminate|]. reflexivity. Qed.
+Theorem xhtml_rendered_text_decodes l s : Exp.fmt s = Exp.FX ->
+  str_eqb (lang s) (R "fr") = false -> str_eqb (lang s) (R "en") = false ->
+  let r := fst (render_text l s) in Repl.dec html_table (List.length r) r = Some (fst (inlines_text l s)).
+Proof.
+  intros Hf H1 H2 r. unfold r. rewrite (render_text_plain l s H1 H2), (escape_fn_xhtml s Hf). apply html_roundtrip.
+Qed.
+Theorem latex_rendered_text_decodes l s : format s = R "latex" ->
+  str_eqb (lang s) (R "fr") = false -> str_eqb (lang s) (R "en") = false ->
+  let r := fst (render_text l s) in Repl.dec latex_table (List.length r) r = Some (fst (inlines_text l s)).
+Proof.
+  intros Hf H1 H2 r. unfold r. rewrite (render_text_plain l s H1 H2). unfold escape_fn. rewrite Hf. cbn [str_eqb].
+  change (str_eqb (R "latex") (R "latex")) with true. cbv iota. apply latex_roundtrip.
+Qed.
+Print Assumptions xhtml_rendered_text_decodes.
